@@ -1695,7 +1695,7 @@ class Executor:
                 return a.isnone
             if isinstance(a, VNone):
                 return z3.BoolVal(True)
-            if isinstance(a, (VList, VRef, VInt, VBool, VCnd, VForm, VStr, VDict, VFloat)):
+            if isinstance(a, (VList, VRef, VInt, VBool, VCnd, VForm, VStr, VDict, VFloat, VTuple, VSet)):
                 return z3.BoolVal(False)
             if isinstance(a, VOpaque) and getattr(a, "kind", None) is None:
                 return a.t == OPQ_NONE  # an untyped value: None is one of the values it may be
